@@ -23,6 +23,7 @@ type vEntry struct {
 	Epoch   uint64
 	ID      uint64
 	Payload []byte
+	Reject  bool // not serialised: the encoder gives up after the first fields, like a generated encoder meeting an over-long field
 }
 
 func (e *vEntry) WALEpoch() uint64 { return e.Epoch }
@@ -36,6 +37,9 @@ func (e *vEntry) MarshalCBOR(w io.Writer) error {
 	}
 	if err := cw.WriteMajorTypeHeader(cbg.MajUnsignedInt, e.ID); err != nil {
 		return err
+	}
+	if e.Reject {
+		return fmt.Errorf("payload of entry %d is too long", e.ID)
 	}
 	if err := cw.WriteMajorTypeHeader(cbg.MajByteString, uint64(len(e.Payload))); err != nil {
 		return err
@@ -194,6 +198,19 @@ func runC11(o *out, r *rng, thorough bool, replay string) {
 		}
 		steps := 8 + r.intn(25)
 		for st := 0; st < steps; st++ {
+			if r.chance(10) {
+				// an append that is REJECTED (the entry cannot be encoded): an error is returned, nothing is acknowledged, and the
+				// log is exactly as before -- in particular the acknowledged appends that follow are readable
+				e := mkEntry()
+				e.Reject = true
+				if err := w.Append(*e); err == nil {
+					viol("an entry that cannot be encoded is not acknowledged", "wal-rejected-append-acked", fmt.Sprint(e.ID))
+				}
+				fnr := freshName() // maybeRotate runs before the encoder: a rejected append may still open a new (empty) file
+				ops = append(ops, fmt.Sprintf("WReject %s", cName(fnr)))
+				desc = append(desc, fmt.Sprintf("rejected-append id=%d", e.ID))
+				o.Dist["rejected-appends"]++
+			}
 			switch k := r.intn(100); {
 			case k < 55:
 				e := mkEntry()
